@@ -4,6 +4,9 @@ import (
 	"bytes"
 	"errors"
 	"fmt"
+	"io"
+	"net"
+	"os"
 	"sort"
 	"sync"
 	"time"
@@ -31,6 +34,7 @@ type clientCase struct {
 	NoConnClose   bool  `json:"no_conn_close,omitempty"`
 	ConnCloseErr  bool  `json:"conn_close_err,omitempty"`  // the connection's Close returns an error
 	AgentCloseErr bool  `json:"agent_close_err,omitempty"` // the agent's Close returns an error
+	CloseErrKind  int   `json:"close_err_kind,omitempty"`  // which error values are injected (closeErrValues): C15 says "a CloseErr carrying the agent and connection errors" whatever they are
 	Ops           []hop `json:"ops"`
 }
 
@@ -167,9 +171,11 @@ type inst struct {
 
 // engine runs a history against the real client and the model in lock step.
 type engine struct {
-	c  clientCase
-	w  *sim.World
-	mu sync.Mutex
+	c clientCase
+
+	errConn, errAgent error // the values injected into the connection's / the agent's Close
+	w                 *sim.World
+	mu                sync.Mutex
 
 	events   []hev
 	seenEv   int
@@ -214,11 +220,12 @@ func newEngine(c clientCase) (*engine, error) {
 		return nil, err
 	}
 	e.w = w
+	e.errConn, e.errAgent = closeErrValues(c.CloseErrKind)
 	if c.ConnCloseErr {
-		w.Conn.CloseErr = errConnClose
+		w.Conn.CloseErr = e.errConn
 	}
 	if c.AgentCloseErr {
-		w.Agent.CloseErr = errAgentClose
+		w.Agent.CloseErr = e.errAgent
 	}
 
 	return e, nil
@@ -228,6 +235,31 @@ var (
 	errConnClose  = errors.New("injected connection close error")
 	errAgentClose = errors.New("injected agent close error")
 )
+
+// closeErrValues: the error values a connection / an agent may return from Close. Besides the
+// harness's own sentinels: the errors real connections return when closed twice or concurrently
+// (net.ErrClosed, io.ErrClosedPipe, wrapped in a *net.OpError), io.EOF, a deadline error, and the
+// library's own closed errors. None of them may be swallowed or replaced.
+func closeErrValues(kind int) (conn, agent error) {
+	switch kind % 8 {
+	case 1:
+		return net.ErrClosed, stun.ErrAgentClosed
+	case 2:
+		return io.ErrClosedPipe, io.ErrClosedPipe
+	case 3:
+		return &net.OpError{Op: "close", Net: "udp", Err: net.ErrClosed}, fmt.Errorf("agent: %w", stun.ErrAgentClosed)
+	case 4:
+		return io.EOF, io.EOF
+	case 5:
+		return os.ErrDeadlineExceeded, stun.ErrTransactionTimeOut
+	case 6:
+		return stun.ErrAgentClosed, net.ErrClosed
+	case 7:
+		return fmt.Errorf("conn: %w", io.ErrClosedPipe), stun.ErrTransactionStopped
+	}
+
+	return errConnClose, errAgentClose
+}
 
 func (e *engine) handlerFor(instNo int) stun.Handler {
 	return func(ev stun.Event) {
@@ -725,7 +757,7 @@ func (e *engine) step(i int, h hop) error {
 		case errors.Is(err, stun.ErrClientClosed):
 			got = "closed"
 		case errors.As(err, &ce):
-			got = fmt.Sprintf("closeerr(agent=%v,conn=%v)", ce.AgentErr == errAgentClose, ce.ConnectionErr == errConnClose) //nolint:errorlint
+			got = fmt.Sprintf("closeerr(agent=%v,conn=%v)", ce.AgentErr == e.errAgent, ce.ConnectionErr == e.errConn) //nolint:errorlint
 		case err != nil:
 			got = "other:" + err.Error()
 		}
